@@ -157,6 +157,10 @@ def getitem(I, base, idx):
             return I.call_repo(raw, [base, idx], {}, None)
     import numpy as _np
 
+    from . import models_np as _mnp
+
+    if isinstance(base, _mnp.Record):
+        return _mnp.rec_get(I, base, idx)
     if base is _np.c_ or base is _np.r_:
         from . import models_np
 
